@@ -10,6 +10,7 @@ A property module provides:
   nontrivial(case) -> bool
 optional: known_class(case, mode, obs) -> slug | None ; neighbours(case, rng) -> [case] ; shrink(case) -> [case]
           normalize(obs) ; extra_checks(ctx) -> [(ok, name, detail)] (e.g. K1 table theorems) ; per_case_timeout ; budget
+          EXTRA_PROP_FILES (further theorem files, built and audited with Print Assumptions like PROP_FILE)
 """
 import collections
 import json
@@ -22,7 +23,12 @@ from . import core, term, translate
 
 
 K1_FILES = {'consts': ['GenConsts'], 'c16_translate': ['GenBounds'], 'c19_translate': ['GenUriTables'],
-            'c03_translate': ['GenOrdering'], 'c17_translate': ['GenDescriptor'], 'wire_k1': ['GenCommands', 'GenLayout']}
+            'c03_translate': ['GenOrdering'], 'c17_translate': ['GenDescriptor'], 'wire_k1': ['GenCommands', 'GenLayout'],
+            # general source translator (tools/props/src_translate.py), one generator module per area
+            'src_bits_translate': ['GenSrcBits'], 'src_ring_translate': ['GenSrcRing'],
+            'src_broadcast_translate': ['GenSrcBroadcast'], 'src_counters_translate': ['GenSrcCounters'],
+            'src_frame_translate': ['GenSrcFrame'], 'src_pub_translate': ['GenSrcPub'], 'src_image_translate': ['GenSrcImage'],
+            'src_sub_translate': ['GenSrcSub']}
 
 
 def _case_key(c):
@@ -60,7 +66,7 @@ class Run:
         pid = mod.ID.lower()
         mine = set(getattr(mod, 'K1_DEPENDS', [])) | {'consts', pid, pid + '_translate'}
         closure = set()
-        for f in [mod.PROP_FILE] + list(mod.EVAL_FILES):
+        for f in [mod.PROP_FILE] + list(mod.EVAL_FILES) + list(getattr(mod, 'EXTRA_PROP_FILES', [])):
             closure.update(core.coq_requires(f))
         for name, ok, lg in translate.regenerate(details=True):
             uses = any('Generated/%s.v' % g in closure for g in K1_FILES.get(name, []))
@@ -75,6 +81,13 @@ class Run:
         self.proof_ok = ok
         if not ok:
             self.broken.append('theorem file %s: %s' % (mod.PROP_FILE, _last_error(out)))
+        # optional further theorem files of the same property (EXTRA_PROP_FILES): built and audited like PROP_FILE
+        self.extra_props = list(getattr(mod, 'EXTRA_PROP_FILES', []))
+        for f in self.extra_props:
+            ok, out = core.coq_build([f[:-2] + '.vo'])
+            if not ok:
+                self.proof_ok = False
+                self.broken.append('theorem file %s: %s%s' % (f, _last_error(out), _blame(f, out)))
         bad = core.coq_hygiene()
         if bad:
             raise core.MachineryError('forbidden declarations in the development:\n' + '\n'.join(bad))
@@ -85,7 +98,18 @@ class Run:
             if not ok:
                 self.proof_ok = False
                 self.broken.append('Print Assumptions outside the allow-list or failed: ' + out[-800:])
+            for i, f in enumerate(self.extra_props):
+                ok, ax, out = core.print_assumptions('%s_x%d' % (mod.ID, i), f)
+                self.axioms.update(ax)
+                if not ok:
+                    self.proof_ok = False
+                    self.broken.append('Print Assumptions (%s) outside the allow-list or failed: %s' % (f, out[-800:]))
         self.obligations, self.dep_files = core.count_obligations(mod.PROP_FILE)
+        for f in self.extra_props:
+            n, files = core.count_obligations(f)
+            new_files = [x for x in files if x not in self.dep_files]
+            self.dep_files = self.dep_files + new_files
+            self.obligations += _count_statements(new_files)      # only the files not counted yet
 
     # -- execution -----------------------------------------------------------
     def run_impl(self, cases):
@@ -173,10 +197,55 @@ class Run:
         return impl, model, verdict, disagreements, failures
 
 
+def _count_statements(files):
+    import re
+    n = 0
+    for f in files:
+        try:
+            src = open(os.path.join(core.COQ, f)).read()
+        except FileNotFoundError:
+            continue
+        src = re.sub(r'\(\*.*?\*\)', '', src, flags=re.S)
+        n += len(re.findall(r'^\s*(?:Local\s+|Global\s+|#\[[^\]]*\]\s*)?(?:Theorem|Lemma|Corollary|Fact|Proposition|Example|Remark)\s+\w+',
+                            src, flags=re.M))
+    return n
+
+
 def _last_error(out):
     lines = out.strip().split('\n')
     keep = [l for l in lines if 'Error' in l or 'error' in l or l.startswith('File ')]
     return ' | '.join((keep or lines)[-4:])[:600]
+
+
+def _blame(prop_file, out):
+    """Which lemma failed to compile and which theorems of `prop_file` rest on it (for the violation message)."""
+    import re
+    try:
+        m = None
+        for m in re.finditer(r'File "\./([^"]+)", line (\d+)', out):
+            pass
+        if not m:
+            return ''
+        path, line = m.group(1), int(m.group(2))
+        src = open(os.path.join(core.COQ, path)).read().split('\n')
+        lemma = None
+        for l in reversed(src[:line]):
+            mm = re.match(r'^\s*(?:Lemma|Theorem|Corollary|Fact|Example)\s+(\w+)', l)
+            if mm:
+                lemma = mm.group(1)
+                break
+        if not lemma:
+            return ''
+        if path == prop_file:
+            return ' [theorem %s]' % lemma
+        text = open(os.path.join(core.COQ, prop_file)).read()
+        hit = []
+        for mm in re.finditer(r'(?ms)^Theorem\s+(\w+)(.*?)Qed\.', text):
+            if re.search(r'\b%s\b' % re.escape(lemma), mm.group(2)):
+                hit.append(mm.group(1))
+        return ' [lemma %s of %s; theorems resting on it: %s]' % (lemma, path, ', '.join(hit) if hit else 'through other lemmas of that file')
+    except Exception:
+        return ''
 
 
 def _size(c):
@@ -322,6 +391,8 @@ def _main(mod, tier, seed, replay):
                         'impl': {m: term.show(impl[m][i])[:400] for m in mod.MODES},
                         'model': {m: (term.show(model[m][i])[:400] if model[m][i] is not None else None) for m in mod.MODES}})
     thm = core.theorem_names(mod.PROP_FILE)
+    for f in getattr(run, 'extra_props', []):
+        thm = thm + core.theorem_names(f)
     axioms_used = sorted({a for v in run.axioms.values() for a in v})
     trusted = [
         'Coq 8.16.1 kernel (coqc; vm_compute used for evaluating cases and for reflection over finite tables; no native_compute)',
@@ -331,6 +402,12 @@ def _main(mod, tier, seed, replay):
         'K2: differential harness harness/%s (Rust, path dependency on the working tree, cfg %s) and tools/props/%s.py generators' % (
             ','.join(mod.CRATES), core.GUARD, mod.ID.lower()),
     ] + list(getattr(mod, 'TRUSTED', []))
+    src_files = [f for f in getattr(mod, 'EXTRA_PROP_FILES', []) if f.endswith('Src.v')]
+    if src_files:
+        trusted.append('K1 source tie (%s): tools/props/src_translate.py (+ the parser of c17_translate.py) translates the pure helper and '
+                       'decision functions this property rests on from the Rust text on every run (coq/Generated/GenSrc*.v); trusted to read '
+                       'the subset of Rust described in docs/reports/SRC.md as rustc does; coq/Base/MachineIntT.v defines the width-generic '
+                       'operators and result shapes the generated text uses' % ', '.join(src_files))
     coverage = {
         'obligations': run.obligations,
         'discharged': run.obligations if run.proof_ok else 0,
